@@ -244,11 +244,13 @@ pub fn run_low(sc: &Scenario, record: bool) -> LowOut {
                 let h = sc.first_step.unwrap_or((sc.xend - sc.x0) / 100.0);
                 RK4::builder()
                     .max_steps(nmax)
+                    .dense_output(sc.low_dense)
                     .build()
                     .solve(&sim, sc.x0, &sc.y0, sc.xend, h, Some(&mut so))
             }
             Meth::RK23 => RK23::builder()
                 .maybe_max_step(sc.max_step)
+                .dense_output(sc.low_dense)
                 .maybe_first_step(sc.first_step)
                 .max_steps(nmax)
                 .maybe_safety_factor(k.safety_factor)
@@ -266,6 +268,7 @@ pub fn run_low(sc: &Scenario, record: bool) -> LowOut {
                 ),
             Meth::DOPRI5 => DOPRI5::builder()
                 .maybe_max_step(sc.max_step)
+                .dense_output(sc.low_dense)
                 .maybe_first_step(sc.first_step)
                 .max_steps(nmax)
                 .maybe_safety_factor(k.safety_factor)
@@ -285,6 +288,7 @@ pub fn run_low(sc: &Scenario, record: bool) -> LowOut {
                 ),
             Meth::DOP853 => DOP853::builder()
                 .maybe_max_step(sc.max_step)
+                .dense_output(sc.low_dense)
                 .maybe_first_step(sc.first_step)
                 .max_steps(nmax)
                 .maybe_safety_factor(k.safety_factor)
@@ -304,6 +308,7 @@ pub fn run_low(sc: &Scenario, record: bool) -> LowOut {
                 ),
             Meth::RADAU => RADAU::builder()
                 .maybe_max_step(sc.max_step)
+                .dense_output(sc.low_dense)
                 .maybe_min_step(sc.min_step)
                 .maybe_first_step(sc.first_step)
                 .max_steps(nmax)
